@@ -692,3 +692,161 @@ def keygen_list_cert(scr, line):
         elif sect and t and t != '(none)':
             d[sect].append(t.split()[0])
     return d
+
+
+# --------------------------------------------------------------------------
+# identity table (wanted identity x principal list x entry point)
+# --------------------------------------------------------------------------
+
+_DECO = {'plain': lambda b: b, 'upper': lambda b: b.capitalize(),
+         'lspace': lambda b: ' ' + b, 'tspace': lambda b: b + ' ',
+         'prefix': lambda b: b[:-1], 'suffix': lambda b: b + 'x',
+         'comma': lambda b: b + ',bob', 'star': lambda b: b[:3] + '*',
+         'qmark': lambda b: b[:-1] + '?'}
+TIMEPT = {0: 0, 1: A - 1, 2: A, 3: B - 1, 4: B, 5: 2 ** 64 - 1}
+
+
+def render_name(n):
+    """Spec name record -> wanted principal (None for 'do not care')."""
+    if n['b'] == '<none>':
+        return None
+    return _DECO[n['d']](n['b'])
+
+
+class IdentWorld:
+    """Certificates for the identity table, always decoded from the wire."""
+
+    def __init__(self, kalg, sig_alg):
+        self.kalg, self.sig_alg = kalg, sig_alg
+        p = pool()[kalg]
+        self.k, self.ca = p['k'], p['ca']
+        self.certs = {}
+        self.sigs = {}
+
+    def cert(self, ctype, names, after, before):
+        ck = (ctype, tuple(names), after, before)
+        if ck not in self.certs:
+            fields = cert_fields(self.ca, self.sig_alg, self.k, CTYPE[ctype],
+                                 names, TIMEPT[after], TIMEPT[before], b'',
+                                 S('permit-pty') + S(b''))
+            blob = b''.join(f for _, f in fields)
+            cert, exc = import_cert_blob(blob, cert_alg(self.k))
+            if cert is None:
+                raise RuntimeError(f'identity certificate not imported: {exc}')
+            self.certs[ck] = cert
+        return self.certs[ck]
+
+    def run(self, row):
+        """-> (accepted, exception) for the entries validate / sshsig."""
+        names = [render_name(n) for n in row['list']]
+        wanted = render_name(row['wanted'])
+        cert = self.cert(row['ctype'], names, row['after'], row['before'])
+        now = TIMEPT[row['now']]
+        if row['entry'] == 'validate':
+            t = {'same': WANT[row['ctype']], 'any': 0,
+                 'other': 3 - WANT[row['ctype']]}[row['want']]
+            with Clock(now):
+                try:
+                    cert.validate(t, wanted)
+                    return True, None
+                except Exception as exc:    # pylint: disable=broad-except
+                    return False, exc
+        if row['entry'] == 'sshsig':
+            ck = (tuple(names), row['after'], row['before'])
+            if ck not in self.sigs:
+                self.sigs[ck] = asyncssh.create_sshsig(
+                    (self.k, cert), MSG, namespace=NS, raw=True)
+            text = '* cert-authority ' + self.ca.export_public_key(
+                'openssh').decode('ascii')
+            with Clock(now):
+                try:
+                    r = asyncssh.validate_sshsig(MSG, self.sigs[ck], wanted,
+                                                 text.encode())
+                    return r is True, None
+                except Exception as exc:    # pylint: disable=broad-except
+                    return False, exc
+        raise ValueError(row['entry'])
+
+
+def live_identity_rows(rows, kalg='ssh-ed25519', sig_alg=b'ssh-ed25519'):
+    """Entries 'login' (public key authentication with a user certificate
+    against a server trusting the CA, user name = wanted identity) and
+    'hostalias' (client checking the server's host certificate for the name
+    given as host_key_alias) on the in-memory network.
+    -> list of 'accept' | 'reject' | 'error:...' in row order."""
+    from harness.vloop import new_loop, close_loop, Deadlock
+    w = IdentWorld(kalg, sig_alg)
+    loop = new_loop()
+    hostkey = pool()[kalg]['k2']
+    out = [None] * len(rows)
+    by_list = {}
+    for i, row in enumerate(rows):
+        names = tuple(render_name(n) for n in row['list'])
+        by_list.setdefault(names, []).append((i, row))
+
+    class Server(asyncssh.SSHServer):
+        def begin_auth(self, username):
+            return True
+
+    async def one(i, row, names, port):
+        wanted = render_name(row['wanted'])
+        try:
+            if row['entry'] == 'login':
+                ucert = w.cert('user', list(names), row['after'],
+                               row['before'])
+                conn = await asyncssh.connect(
+                    '127.0.0.1', port, known_hosts=None, config=None,
+                    username=wanted, client_keys=[(w.k, ucert)],
+                    agent_path=None, password=None,
+                    preferred_auth='publickey')
+            else:
+                conn = await asyncssh.connect(
+                    '127.0.0.1', port, config=None, username='u',
+                    known_hosts=([], [w.ca.convert_to_public()], []),
+                    host_key_alias=wanted, client_keys=[w.k],
+                    agent_path=None, password=None,
+                    preferred_auth='publickey')
+        except asyncssh.HostKeyNotVerifiable:
+            out[i] = 'reject' if row['entry'] == 'hostalias' \
+                else 'error:HostKeyNotVerifiable'
+            return
+        except asyncssh.PermissionDenied:
+            out[i] = 'reject' if row['entry'] == 'login' else 'accept'
+            return
+        except Exception as exc:            # pylint: disable=broad-except
+            out[i] = f'error:{type(exc).__name__}: {exc}'
+            return
+        out[i] = 'accept'
+        conn.close()
+        await conn.wait_closed()
+
+    async def go():
+        auth = asyncssh.import_authorized_keys(
+            'cert-authority ' +
+            w.ca.export_public_key('openssh').decode('ascii'))
+        port = 2300
+        for names, items in by_list.items():
+            port += 1
+            hcert = w.cert('host', list(names), 0, 5)
+            hk = asyncssh.import_private_key(
+                hostkey.export_private_key('openssh'))
+            # the host certificate certifies the server's own host key
+            fields = cert_fields(w.ca, sig_alg, hk, CTYPE['host'],
+                                 list(names), 0, 2 ** 64 - 1, b'', b'')
+            hcert, exc = import_cert_blob(b''.join(f for _, f in fields),
+                                          cert_alg(hk))
+            acc = await asyncssh.listen(
+                '127.0.0.1', port, server_factory=Server,
+                server_host_keys=[hk], server_host_certs=[hcert],
+                authorized_client_keys=auth)
+            for i, row in items:
+                await one(i, row, names, port)
+            acc.close()
+
+    try:
+        loop.run_until_complete(go())
+    except Deadlock:
+        out = [o or 'error:hung' for o in out]
+    finally:
+        close_loop(loop)
+    return out
